@@ -29,8 +29,8 @@ ASSUMPTIONS = ["affine model vf/model/ec.py over model fields; curve constants d
                "multiply is exercised for n >= 0 only (the property's domain)"]
 ENGINE = "exhaustive enumeration on small curves + hypothesis on the real curves"
 TECHNIQUE = ("exhaustive enumeration over small curves on ad-hoc field classes + property-based testing (Hypothesis) on the real curves, differential against an independent affine model")
-REQUIRED_LABELS = {t: ["A:pairs", "A:triples", "A:scalars", "A:opt:scaled", "B:collision:same",
-                       "B:collision:inverse", "B:same_y_other_x", "B:opposite_y_other_x", "B:non_subgroup", "B:scalar>=2^200", "B:G12:sum", "C:consts",
+REQUIRED_LABELS = {t: ["A:pairs", "A:triples", "A:scalars", "A:long_scalars", "A:opt:scaled", "B:collision:same",
+                       "B:collision:inverse", "B:same_y_other_x", "B:opposite_y_other_x", "B:non_subgroup", "B:small_order_point", "B:small_order_component", "B:scalar>=2^200", "B:G12:sum", "C:consts",
                        "C:twist"] for t in ("quick", "thorough")}
 CURVE_FILE = {"bn128": "py_ecc.bn128.bn128_curve", "bls12_381": "py_ecc.bls12_381.bls12_381_curve",
               "optimized_bn128": "py_ecc.optimized_bn128.optimized_curve",
@@ -193,6 +193,10 @@ def _scalar(ctx, S, P, n, s, i, ordP):
         ctx.nontrivial_bulk(1)
 
 
+LONG_SCALARS = ((1 << 64) + 4, 0xFEDCBA9876543210F, (1 << 130) - 1, 0x123456789ABCDEF0123456789ABCDEF01, 1 << 255,
+                0x73EDA753299D7D483339D80809A1D80553BDA402FFFE5BFEFFFFFFFF00000000)
+
+
 def t_small(ctx, module, p, ext, bs, max_assoc, stride_seed):
     for b in bs:
         S = SmallCurve(module, p, ext, b)
@@ -245,6 +249,11 @@ def t_small(ctx, module, p, ext, bs, max_assoc, stride_seed):
                 s = S.scalars[(a + m_) % nsc] if S.opt else None
                 _scalar(ctx, S, P, m_, s, m_ % 4, ordP)
                 ctx.label("A:scalars")
+            # scalars far longer than the group order (windowed / chunked ladders switch strategy on the bit length):
+            # every hex digit occurs, applied to points of every small order
+            for m_ in LONG_SCALARS:
+                _scalar(ctx, S, P, m_, S.scalars[(a + m_) % nsc] if S.opt else None, m_ % 4, ordP)
+                ctx.label("A:long_scalars")
         ctx.subspace(f"{module} on y^2=x^3+{b} over GF({p}{'^2' if ext else ''}), order {n}: all points/pairs, "
                      f"{how}, all scalars 0..{2 * n + 2}", n * n + n * (2 * n + 3))
         ctx.sample({"module": module, "p": p, "ext": ext, "b": list(b) if ext else b, "order": n},
@@ -269,6 +278,12 @@ def model_point(C, g, spec):
     base = C.G1 if g == "G1" else C.G2
     P = C.mul(g, base, k % C.r)
     if tors and (g == "G2" or C.h1 > 1):
+        if tors >= 10 and C.name == "bls12_381":
+            # a component of SMALL order (3, 11 on E(Fp); 13, 23 on the twist), alone or on top of k*G
+            from vf.props import _bls_common as bc
+            ell = bc.SMALL_ORDERS[g][tors % 2]
+            T = C.mul(g, bc.small_point(g, ell, 1 + (tors // 2) % 3), 1 + (tors // 6) % (ell - 1))
+            return T if tors >= 40 else C.add(g, P, T)
         P = C.add(g, P, C.torsion(g, tors))
     return P
 
@@ -356,6 +371,8 @@ def o_real(ctx, case):
         ctx.label("B:same_y_other_x" if rel[4] == "+" else "B:opposite_y_other_x"); nt_ = True
     if case["P"].get("tors") and (g == "G2" or C.h1 > 1):
         ctx.label("B:non_subgroup"); nt_ = True
+        if case["P"]["tors"] >= 10 and C.name == "bls12_381":
+            ctx.label("B:small_order_component" if case["P"]["tors"] < 40 else "B:small_order_point")
     if M.opt and (case["s1"] != 1 or case["s2"] != 1):
         ctx.label("B:scaled"); nt_ = True
     if n is not None and n >= 2 ** 200:
@@ -443,7 +460,7 @@ ORACLES = {"small": o_small, "real": o_real, "consts": o_consts, "twist": o_twis
 
 def s_pspec(C, g):
     kinds = st.sampled_from(["twist", "twist", "cast", "sum"]) if g == "G12" else st.just("pt")
-    tors = st.sampled_from([0, 0, 0, 1, 2, 3]) if g != "G12" else st.just(0)
+    tors = st.sampled_from([0, 0, 0, 0, 1, 2, 3, 10, 11, 17, 40, 41, 47, 52]) if g != "G12" else st.just(0)
     return st.fixed_dictionaries({"k": scalar_in(1, C.r - 1), "tors": tors, "kind": kinds,
                                   "inf": st.sampled_from([False] * 9 + [True])})
 
@@ -497,6 +514,10 @@ def t_real(ctx, module, g, shard, n, big, assoc):
                            rel=["free", "same", "inverse"][i % 3], n=n_))
         ex.append(dict(base, P={"k": 1, "tors": 0, "kind": kind, "inf": True},
                        Q={"k": 1, "tors": 0, "kind": kind, "inf": True}, rel="free", n=5))
+        if C.name == "bls12_381" and g != "G12":
+            for i, (t_, n_) in enumerate(((40, C.r - 1), (41, (1 << 64) + 4), (47, C.r + 1), (10, 2 * C.p - C.r), (52, 0xFEDCBA9876543210F))):
+                ex.append(dict(base, P={"k": 3 + i, "tors": t_, "kind": kind, "inf": False},
+                               Q={"k": 9, "tors": 0, "kind": kind, "inf": False}, rel="free", n=n_ if big else 3))
         for i, rel_ in enumerate(("endo+0", "endo+1", "endo-0", "endo-1")):
             ex.append(dict(base, P={"k": 13 + i, "tors": 0, "kind": kind, "inf": False},
                            Q={"k": 9, "tors": 0, "kind": kind, "inf": False}, rel=rel_, n=None))
